@@ -24,3 +24,46 @@ package iter
 //@   results v1, ok1
 //@   ensures [C09.pull.done] old(*done) ==> !ok1
 //@   modifies *yieldNext, family(C_bool)
+
+// ---------------------------------------------------------------- the small adapters (C09, C11)
+// each is a closure handed to (or wrapping) a sequence; verified once for opaque element types
+
+// a consumer / producer about which nothing is known except that it keeps its hands off the heap
+//@ ghostfield any.nyield Int
+//@ ghostfield any.lastVerdict Bool
+//@ func yieldCount
+//@   assumed
+//@   ensures self.nyield == old(self.nyield) + 1 && self.lastVerdict == result
+//@   modifies self.nyield, self.lastVerdict
+//@ func fnCount
+//@   assumed
+//@   ensures self.nyield == old(self.nyield) + 1
+//@   modifies self.nyield
+//@ func fnAny
+//@   assumed
+//@   modifies nothing
+// First: takes the FIRST element and stops the sequence
+//@ func First$1
+//@   ensures [C09.first.stop] !result && *res == t
+//@   modifies *res
+// From: yields the given elements in order, each once, until the consumer stops
+//@ func From$1
+//@   functype yield yieldCount
+//@   requires yield != nil
+//@   ensures [C09.from.all] yield.nyield - old(yield.nyield) == len(*in) || (yield.nyield - old(yield.nyield) < len(*in) && !yield.lastVerdict)
+//@   modifies yield.nyield, yield.lastVerdict
+//@   loop 0 invariant -1 <= rangeindex && rangeindex < len(*in) && yield.nyield - old(yield.nyield) == rangeindex + 1 && (rangeindex >= 0 ==> yield.lastVerdict)
+// Map: every element the inner sequence yields is passed on - transformed, once - and the consumer's
+// verdict (go on / stop) is handed back unchanged
+//@ func Map$1$1
+//@   functype yield yieldCount
+//@   functype fn fnAny
+//@   requires *yield != nil && *fn != nil
+//@   ensures [C09.map.pass] (*yield).nyield == old((*yield).nyield) + 1 && result == (*yield).lastVerdict
+//@   modifies (*yield).nyield, (*yield).lastVerdict
+// Consume: every element is handed to the function, and the sequence goes on
+//@ func Consume$1
+//@   functype fn fnCount
+//@   requires *fn != nil
+//@   ensures [C11.consume.all] result && (*fn).nyield == old((*fn).nyield) + 1
+//@   modifies (*fn).nyield
